@@ -28,3 +28,24 @@ Proof.
     with (eval_allowed shipped_lists relax shipped_checks l v p).
   apply shipped_standard; assumption.
 Qed.
+
+(** the same through the webhook: a well-formed review below the size limit is answered with 200,
+    its own uid, and a verdict that is compliance with the standard *)
+From PSA Require Import Model.Webhook.
+Lemma webhook_end_to_end_proof : forall c relax q uid r w ls p m,
+  hq_has_body q = true -> N.ltb (hq_size q) max_request_size = true ->
+  hq_ctype q = "application/json"%string -> hq_payload q = Review uid r w ->
+  evaluated_pod c r w = Some (ls, p) ->
+  api_valid p = true -> relaxed_for relax p = false ->
+  effective_minor (lv_version (enforce (spec_policy ls (cf_defaults c)))) = Some m ->
+  exists resp, handle c (shipped_evaluator relax) q = HttpResponse 200 (Some (uid, resp))
+               /\ rs_allowed resp = compliant (lv_level (enforce (spec_policy ls (cf_defaults c)))) m p.
+Proof.
+  intros c relax q uid r w ls p m Hb Hs Hc Hp He Hv Hr Hm.
+  exists (fst (validate c (shipped_evaluator relax) r w)). split.
+  - unfold handle. rewrite Hb, Hc, Hp. cbn [negb].
+    apply N.ltb_lt in Hs. destruct (N.leb_spec max_request_size (hq_size q)) as [Hle|_].
+    + exfalso. apply N.lt_nge in Hs. exact (Hs Hle).
+    + rewrite String.eqb_refl. reflexivity.
+  - exact (end_to_end_proof c relax r w ls p m He Hv Hr Hm).
+Qed.
